@@ -197,12 +197,15 @@ def cli_runs(seed, tier):
     # invalid method names
     import subprocess
     bad_names = ["bogus", "Single", "WARD", "", "singl", "average ", "centroid2", "medianx", "complete-linkage"]
-    small = files[4][0]
-    for bname in bad_names:
-        p = subprocess.run([exe, "--method", bname, small], stdout=subprocess.PIPE, stderr=subprocess.PIPE, env=kv.ENV, timeout=120)
-        nruns += 1
-        if p.returncode == 0:
-            out["violations"].append({"desc": "C18 invalid method name %r accepted: exit status 0, stdout %r" % (bname, p.stdout.decode()[:120])})
+    # ... against an ordinary file and against every degenerate one (0, 1, 2, 3 records: nothing
+    # or almost nothing to cluster - the name must be rejected all the same)
+    targets = [files[4]] + [f for f in files if f[1] <= 3][:8]
+    for csv, nrec in targets:
+        for bname in bad_names:
+            p = subprocess.run([exe, "--method", bname, csv], stdout=subprocess.PIPE, stderr=subprocess.PIPE, env=kv.ENV, timeout=120)
+            nruns += 1
+            if p.returncode == 0:
+                out["violations"].append({"desc": "C18 invalid method name %r accepted on %s (%d records): exit status 0, stdout %r" % (bname, os.path.basename(csv), nrec, p.stdout.decode()[:120])})
     out["evaluations"] = nruns
     out["distinct_nontrivial"] = len([1 for _, n in files if n >= 3]) * 3
     out["coverage"] = dict(hist, files=len(files), invalid_names=len(bad_names),
